@@ -126,7 +126,9 @@ func checkC07(e *Env) {
 		if wrapper {
 			// interposer modes: plain recording, fragmented reads, a failing read
 			mode := "1"
-			switch (p / 2) % 4 {
+			switch (p / 2) % 5 {
+			case 4:
+				mode = "zeros:3"
 			case 1:
 				mode = "short"
 			case 2:
@@ -178,9 +180,12 @@ func checkC07(e *Env) {
 				ents = append(ents, ent)
 			}
 		}
-		mu.Lock()
-		entropies = append(entropies, ents...)
-		mu.Unlock()
+		if !strings.HasPrefix(strings.Join(env, ""), "VERIF_EARLYRAND=zeros") {
+			// (processes in which the monitor itself injected all-zero reads do not enter the statistics)
+			mu.Lock()
+			entropies = append(entropies, ents...)
+			mu.Unlock()
+		}
 	})
 
 	// layer 3: kernel boundary, no hook used at all
